@@ -164,7 +164,11 @@ def config_op(rng: random.Random, o="a", lite=False) -> str:
 
 
 def traffic_op(rng: random.Random, o="a", rid=0) -> str:
-    k = rng.randrange(24)
+    k = rng.randrange(25)
+    if k == 24:
+        # the CE pin "for advanced usage": read back, or driven by the application (starts / stops transmitting
+        # whatever write(write_only=True) queued; stops / resumes listening)
+        return rng.choice([f"{o} get ce_pin", f"{o} set ce_pin T", f"{o} set ce_pin F"])
     if k == 0:
         return f"{o} available"
     if k == 1:
